@@ -290,7 +290,7 @@ pub fn specs(tier: &str) -> Vec<ExpSpec> {
     let mut v = Vec::new();
     for ft in [FatType::Fat12, FatType::Fat16, FatType::Fat32] {
         let cfg = vol::tiny_with(ft, 12, 16);
-        v.push(ExpSpec::new(cfg.clone(), alphabet(512), if th { 6 } else { 4 }));
+        v.push(ExpSpec::new(cfg.clone(), alphabet(512), if th { 7 } else { 4 }));
         // f already exists with one flushed cluster: in-place overwrites and re-flushes within the same depth
         let mut c2 = cfg;
         c2.name = format!("{}-prefilled", c2.name);
